@@ -216,6 +216,12 @@ func (g Gateway) Set(ctx context.Context, in *hydrapb.SetRequest) (*hydrapb.SetR
 			// return with grpc error message
 			return nil, status.Error(codes.InvalidArgument, fmt.Sprintf("KeyValues cannot be empty for the swamp: %s", swampRequest.GetSwampName()))
 		}
+		for _, item := range swampRequest.GetKeyValues() {
+			if !isValidKey(item.GetKey()) {
+				// the storage writer refuses such a key when the swamp is flushed: do not acknowledge it
+				return nil, status.Error(codes.InvalidArgument, "Key must be between 1 and 65535 bytes long")
+			}
+		}
 	}
 
 	// try to summon the swamp
@@ -1856,6 +1862,11 @@ func (g Gateway) Uint32SlicePush(ctx context.Context, in *hydrapb.AddToUint32Sli
 	if in.SwampName == "" {
 		return nil, status.Error(codes.InvalidArgument, "SwampName cannot be empty")
 	}
+	for _, pair := range in.KeySlicePairs {
+		if !isValidKey(pair.GetKey()) {
+			return nil, status.Error(codes.InvalidArgument, "Key must be between 1 and 65535 bytes long")
+		}
+	}
 
 	// check the name of the swamp
 	swampName, err := checkSwampName(g.ZeusInterface, in.GetIslandID(), in.SwampName, false)
@@ -2090,6 +2101,9 @@ func (g Gateway) IncrementInt8(ctx context.Context, in *hydrapb.IncrementInt8Req
 		// return with grpc error message
 		return nil, status.Error(codes.InvalidArgument, "IncrementBy cannot be zero")
 	}
+	if !isValidKey(in.Key) {
+		return nil, status.Error(codes.InvalidArgument, "Key must be between 1 and 65535 bytes long")
+	}
 
 	// check the name of the swamp
 	swampName, err := checkSwampName(g.ZeusInterface, in.GetIslandID(), in.SwampName, false)
@@ -2153,6 +2167,9 @@ func (g Gateway) IncrementInt16(ctx context.Context, in *hydrapb.IncrementInt16R
 		// return with grpc error message
 		return nil, status.Error(codes.InvalidArgument, "IncrementBy cannot be zero")
 	}
+	if !isValidKey(in.Key) {
+		return nil, status.Error(codes.InvalidArgument, "Key must be between 1 and 65535 bytes long")
+	}
 
 	// check the name of the swamp
 	swampName, err := checkSwampName(g.ZeusInterface, in.GetIslandID(), in.SwampName, false)
@@ -2214,6 +2231,9 @@ func (g Gateway) IncrementInt32(ctx context.Context, in *hydrapb.IncrementInt32R
 	if in.IncrementBy == 0 {
 		// return with grpc error message
 		return nil, status.Error(codes.InvalidArgument, "IncrementBy cannot be zero")
+	}
+	if !isValidKey(in.Key) {
+		return nil, status.Error(codes.InvalidArgument, "Key must be between 1 and 65535 bytes long")
 	}
 
 	// check the name of the swamp
@@ -2277,6 +2297,9 @@ func (g Gateway) IncrementInt64(ctx context.Context, in *hydrapb.IncrementInt64R
 		// return with grpc error message
 		return nil, status.Error(codes.InvalidArgument, "IncrementBy cannot be zero")
 	}
+	if !isValidKey(in.Key) {
+		return nil, status.Error(codes.InvalidArgument, "Key must be between 1 and 65535 bytes long")
+	}
 
 	// check the name of the swamp
 	swampName, err := checkSwampName(g.ZeusInterface, in.GetIslandID(), in.SwampName, false)
@@ -2338,6 +2361,9 @@ func (g Gateway) IncrementUint8(ctx context.Context, in *hydrapb.IncrementUint8R
 	if in.IncrementBy == 0 {
 		// return with grpc error message
 		return nil, status.Error(codes.InvalidArgument, "IncrementBy cannot be zero")
+	}
+	if !isValidKey(in.Key) {
+		return nil, status.Error(codes.InvalidArgument, "Key must be between 1 and 65535 bytes long")
 	}
 
 	// check the name of the swamp
@@ -2401,6 +2427,9 @@ func (g Gateway) IncrementUint16(ctx context.Context, in *hydrapb.IncrementUint1
 		// return with grpc error message
 		return nil, status.Error(codes.InvalidArgument, "IncrementBy cannot be zero")
 	}
+	if !isValidKey(in.Key) {
+		return nil, status.Error(codes.InvalidArgument, "Key must be between 1 and 65535 bytes long")
+	}
 
 	// check the name of the swamp
 	swampName, err := checkSwampName(g.ZeusInterface, in.GetIslandID(), in.SwampName, false)
@@ -2462,6 +2491,9 @@ func (g Gateway) IncrementUint32(ctx context.Context, in *hydrapb.IncrementUint3
 	if in.IncrementBy == 0 {
 		// return with grpc error message
 		return nil, status.Error(codes.InvalidArgument, "IncrementBy cannot be zero")
+	}
+	if !isValidKey(in.Key) {
+		return nil, status.Error(codes.InvalidArgument, "Key must be between 1 and 65535 bytes long")
 	}
 
 	// check the name of the swamp
@@ -2525,6 +2557,9 @@ func (g Gateway) IncrementUint64(ctx context.Context, in *hydrapb.IncrementUint6
 		// return with grpc error message
 		return nil, status.Error(codes.InvalidArgument, "IncrementBy cannot be zero")
 	}
+	if !isValidKey(in.Key) {
+		return nil, status.Error(codes.InvalidArgument, "Key must be between 1 and 65535 bytes long")
+	}
 
 	// check the name of the swamp
 	swampName, err := checkSwampName(g.ZeusInterface, in.GetIslandID(), in.SwampName, false)
@@ -2586,6 +2621,9 @@ func (g Gateway) IncrementFloat32(ctx context.Context, in *hydrapb.IncrementFloa
 	if in.IncrementBy == 0 {
 		// return with grpc error message
 		return nil, status.Error(codes.InvalidArgument, "IncrementBy cannot be zero")
+	}
+	if !isValidKey(in.Key) {
+		return nil, status.Error(codes.InvalidArgument, "Key must be between 1 and 65535 bytes long")
 	}
 
 	// check the name of the swamp
@@ -2649,6 +2687,9 @@ func (g Gateway) IncrementFloat64(ctx context.Context, in *hydrapb.IncrementFloa
 	if in.IncrementBy == 0 {
 		// return with grpc error message
 		return nil, status.Error(codes.InvalidArgument, "IncrementBy cannot be zero")
+	}
+	if !isValidKey(in.Key) {
+		return nil, status.Error(codes.InvalidArgument, "Key must be between 1 and 65535 bytes long")
 	}
 
 	// check the name of the swamp
@@ -2978,6 +3019,14 @@ func handlePanic() {
 		// log the panic with the error and stack trace
 		slog.Error("grpc gateway panic", "error", r, "stack", string(stackTrace))
 	}
+}
+
+// maxKeyLength is the longest treasure key the storage file format can represent (16-bit length field).
+const maxKeyLength = 65535
+
+// isValidKey reports whether a treasure can be stored under this key: not empty, at most 65535 bytes.
+func isValidKey(key string) bool {
+	return key != "" && len(key) <= maxKeyLength
 }
 
 // isValidSwampName reports whether the name has exactly three non-empty parts (sanctuary/realm/swamp).
